@@ -200,16 +200,23 @@ def run_virtual(main, *, epoch: int = EPOCH_DEFAULT, read_cost_us: int = 1, late
     asyncio.set_event_loop(loop)
 
     def on_alarm(signum, frame):
-        raise HarnessTimeout(f"no progress after {wall_limit_s} s of real time")
+        raise HarnessTimeout(f"no progress after {wall_limit_s} s of CPU time (or {wall_limit_s * 10} s of real time)")
     import signal
+    # The limit is counted in CPU time of this process (ITIMER_PROF), so that a heavily loaded
+    # machine cannot make a healthy run look like a hang; a generous real-time limit stays as a
+    # fall-back for a run that blocks without using the CPU.
     old_handler = signal.signal(signal.SIGALRM, on_alarm)
-    signal.setitimer(signal.ITIMER_REAL, wall_limit_s, 0.5)   # repeats: a raise inside a GC callback is swallowed
+    old_prof = signal.signal(signal.SIGPROF, on_alarm)
+    signal.setitimer(signal.ITIMER_PROF, wall_limit_s, 0.5)    # repeats: a raise inside a GC callback is swallowed
+    signal.setitimer(signal.ITIMER_REAL, wall_limit_s * 10, 0.5)
     try:
         result = loop.run_until_complete(main(loop))
         return result, loop
     finally:
+        signal.setitimer(signal.ITIMER_PROF, 0)
         signal.setitimer(signal.ITIMER_REAL, 0)
         signal.signal(signal.SIGALRM, old_handler)
+        signal.signal(signal.SIGPROF, old_prof)
         remove_shims(saved)
         try:
             # cancel leftovers so that closing the loop is quiet
